@@ -5,7 +5,7 @@ check against it and records whether the check stays quiet (it must) or how it a
 Files it under /verif/selftest/independent-harmless/<name>/."""
 import json, os, shutil, subprocess, sys, re
 prop, src, name = sys.argv[1], os.path.abspath(sys.argv[2]), sys.argv[3]
-wt = "/tmp/seedwt-" + prop
+wt = "/tmp/seedwt-%s-%d" % (prop, os.getpid())  # private worktree per invocation
 env = dict(os.environ, GOFLAGS="-mod=mod", GOPROXY="off", GOSUMDB="off", GOTOOLCHAIN="local")
 def sh(cmd, cwd=None, timeout=2400):
     p = subprocess.run(cmd, shell=True, cwd=cwd, env=env, stdout=subprocess.PIPE, stderr=subprocess.STDOUT, text=True, timeout=timeout)
@@ -34,3 +34,4 @@ if applies and suite_ok:
     for f in os.listdir(src):
         if f != "meta.json": shutil.copy(os.path.join(src, f), dst)
     json.dump(meta, open(os.path.join(dst, "meta.json"), "w"), indent=1)
+subprocess.run("git -C /repo worktree remove --force %s" % wt, shell=True)
